@@ -523,6 +523,14 @@ var (
 		Name: Name{Name: "float"},
 		Kind: Builtin,
 	}
+	Complex128 = &Type{
+		Name: Name{Name: "complex128"},
+		Kind: Builtin,
+	}
+	Complex64 = &Type{
+		Name: Name{Name: "complex64"},
+		Kind: Builtin,
+	}
 	Bool = &Type{
 		Name: Name{Name: "bool"},
 		Kind: Builtin,
@@ -552,6 +560,10 @@ var (
 			"float":   Float,
 			"float64": Float64,
 			"float32": Float32,
+			// rune is an alias of int32, like byte is of uint8.
+			"rune":       Int32,
+			"complex128": Complex128,
+			"complex64":  Complex64,
 		},
 		Imports: map[string]*Package{},
 		Path:    "",
